@@ -11,7 +11,7 @@ library itself uses for control flow among them - or uses the library itself (fe
 limit); a Data that reached the consumer in time and whose validation failed is a validation failure, never a timeout."""
 import os
 import re
-from apphelp import AppRig
+from apphelp import AppRig, TransportRig
 
 PROP = 'C19'
 TITLE = 'Segmented fetch yields every segment once, in order, tolerating bounded loss'
@@ -83,7 +83,10 @@ RULE = ('objects: unsegmented (Data named exactly the prefix / with a version / 
         'last segment, once or at every call, also after losses and with other traffic on the application: whatever the '
         'validator raised (or ValidationFailure) must come out of the fetch at that Interest, which is not requested again, and '
         'a slow validator is no timeout; non-trivial = at least two Interests were sent and something was yielded or a retry happened; '
-        'distinct = distinct (object, discovery, limit, script)')
+        'distinct = distinct (object, discovery, limit, script)'
+        ' Transport stream: fetches whose packets arrive through the real stream transport (TcpFace / UnixFace run() '
+        'framing an in-memory byte stream, packets of one instant in one chunk, chunks cut into segments; oracle only). '
+        'In every case the yielded items are kept as the objects they are and read again when the fetch is over.')
 
 PREFIX = '/obj'
 PREFIX2 = '/obj2'        # what a second fetch on the same application fetches (unless it is the same object)
@@ -194,7 +197,8 @@ def _targeted(rng, tier):
 
 def _oracle_only(case):
     o = case['obj']
-    return bool(o.get('content') or o.get('fbi_type') or case.get('others') or case.get('start') or case.get('val'))
+    return bool(o.get('content') or o.get('fbi_type') or case.get('others') or case.get('start') or case.get('val')
+                or case.get('via'))
 
 
 def _delay(rng, T, o):
@@ -554,6 +558,30 @@ def cases(rng, tier):
     yield from _busy(rng, tier)
     yield from _validating_targeted(rng, tier)
     yield from _validating(rng, tier)
+    yield from _transported(rng, tier)
+
+
+def _transported(rng, tier):
+    """fetches (plain, delayed answers, other traffic, validating) whose packets reach the application through the REAL
+    stream transport - a TcpFace / UnixFace whose own run() loop frames an in-memory byte stream (apphelp.TransportRig):
+    packets of one instant in one chunk or one by one, chunks cut into segments.  For EVERY case of the plugin the
+    items the fetcher yielded are kept as the objects they are and read again when the fetch is over."""
+    n = 250 if tier == 'quick' else 4000
+    srcs = [_delayed(rng, 'quick'), _busy(rng, 'quick'), _validating(rng, 'quick')]
+    for k in range(n):
+        c = None
+        if k % 4:
+            c = next(srcs[k % 4 - 1], None)
+        if c is None:
+            nseg = rng.choice([1, 2, 3, 3, 4, 5, 6, 8])
+            retry = rng.choice([0, 1, 2, 3])
+            c = {'obj': {'kind': 'seg', 'fbi': _fbis(rng, nseg)}, 'disc': rng.randrange(nseg), 'retry': retry,
+                 'script': _script(rng, nseg + 2, max(1, retry)), 'timeout_ms': rng.choice([4000, 1000, 50]),
+                 'fresh': rng.random() < 0.5}
+        c['via'] = 'unix' if k % 2 else 'stream'
+        c['chunk'] = rng.random() < 0.6
+        c['seg'] = rng.choice([0, 0, 1, 9, 1460])
+        yield c
 
 
 def _shrink_others(case):
@@ -794,7 +822,7 @@ def run_impl(case):
         finally:
             ev['t_end'] = now_ms()
 
-    with AppRig('v1') as rig:
+    with (TransportRig('v1', via=case['via']) if case.get('via') else AppRig('v1')) as rig:
         t0 = rig.loop.time()
         _settle = rig.loop.settle
         rig.loop.settle = lambda limit=5000: _settle(limit)      # a fetcher that spins at one instant is a hang, soon
@@ -811,6 +839,7 @@ def run_impl(case):
             try:
                 async for c in gen:
                     F['yielded'].append(None if c is None else bytes(c))
+                    F.setdefault('kept', []).append(c)       # the caller keeps what it was given (read again at the end)
                 F['box']['end'] = 'done'
             except (BaseException if val else Exception) as e:     # noqa  (a scripted validator may raise CancelledError)
                 F['box']['end'] = type(e).__name__
@@ -898,7 +927,10 @@ def run_impl(case):
             if o['kind'] == 'in':
                 incoming_reply[_name_hex(name)] = o['reply']
                 wire = bytes(enc.make_interest(name, enc.InterestParam(can_be_prefix=o['cbp'], lifetime=4000, nonce=idx + 1)))
-                rig.loop.create_task(rig.face.callback(0x05, wire))
+                if case.get('via'):
+                    rig.face.reader.feed_data(wire)
+                else:
+                    rig.loop.create_task(rig.face.callback(0x05, wire))
                 return
             other_trig[idx] = trig_req
             t = rig.loop.create_task(other_interest(idx, o, name))
@@ -1040,7 +1072,16 @@ def run_impl(case):
             if second is not None:
                 ev['live2'] = alive(second)
             events.append(ev)
-            rig.deliver(wire)
+            if case.get('via'):
+                # through the real stream transport (the library's StreamFace.run frames the byte stream); packets that
+                # arrive at the same instant are ONE chunk of it
+                while case.get('chunk') and flight and flight[0][0] == ta:
+                    _, _, w2, info2 = heapq.heappop(flight)
+                    events.append(dict(ev, **info2))
+                    wire += w2
+                rig.feed(wire, mss=case.get('seg') or 0)
+            else:
+                rig.deliver(wire)
 
         def pump():
             producer()
@@ -1091,6 +1132,8 @@ def run_impl(case):
                 pump()
             # what is still on its way arrives when nobody waits for it any more: it has to be dropped quietly
             for _ in range(min(len(flight), 64)):
+                if not flight:
+                    break                # several of them arrived in one chunk
                 hand_over()
         except RuntimeError as e:
             if 'did not quiesce' not in str(e):
@@ -1105,8 +1148,18 @@ def run_impl(case):
                 m = re.fullmatch(rb'c(\d+)', c or b'')
                 ids.append(int(m.group(1)) if m else EMPTY_ID if not c else -1)
             return ids
+        def held_ids(F):
+            """the sequence the caller holds now that everything is over (later packets have arrived since each item
+            was yielded): it is the sequence that was yielded"""
+            then = F['yielded']
+            try:
+                now = [None if c is None else bytes(c) for c in F.get('kept', [])]
+            except Exception:      # noqa
+                now = [b'unreadable'] * len(then)
+            ids = ids_of(now)
+            return ids if now == then else ids + [-1] if ids == ids_of(then) else ids
         box = main['box']
-        out = {'yielded': ids_of(main['yielded']), 'log': main['log'], 'end': box.get('end', '?'), 'flags': sorted(set(flags)),
+        out = {'yielded': held_ids(main), 'log': main['log'], 'end': box.get('end', '?'), 'flags': sorted(set(flags)),
                'nack_reason': box.get('reason') if box.get('end') == 'InterestNack' else None,
                'namelog': main['namelog'], 'prefix_hex': _name_hex(prefix),
                'base_hex': _name_hex(unseg_names[obj['name']] if obj['kind'] == 'unseg' else prefix + [ver]),
@@ -1116,7 +1169,7 @@ def run_impl(case):
             out['others_out'] = {str(k): v for k, v in sorted(others_out.items())}
         if second is not None and second['task'] is not None:
             b2 = second['box']
-            out['second'] = {'yielded': ids_of(second['yielded']), 'log': second['log'], 'end': b2.get('end', '?'),
+            out['second'] = {'yielded': held_ids(second), 'log': second['log'], 'end': b2.get('end', '?'),
                              'nack_reason': b2.get('reason') if b2.get('end') == 'InterestNack' else None,
                              'sent': second['sent'], 'end_ms': b2.get('end_ms')}
         return out
